@@ -2,9 +2,9 @@ package main
 
 import (
 	"fmt"
-	"os"
 	"go/token"
 	"go/types"
+	"os"
 	"strings"
 
 	"golang.org/x/tools/go/callgraph"
@@ -857,7 +857,6 @@ func (p *Prog) Killed(between []ssa.Instruction, locs map[Loc]bool, symRoots map
 	return nil
 }
 
-
 // relevantReads computes the location classes read by loads that can
 // influence a return value, a branch, a call argument or an index.
 func (p *Prog) relevantReads(fn *ssa.Function) []Loc {
@@ -911,7 +910,6 @@ func (p *Prog) relevantReads(fn *ssa.Function) []Loc {
 	}
 	return out
 }
-
 
 // isFreshValue: the value is an object created by this function (so writes
 // through it cannot be observed through any pre-existing path): allocations,
@@ -967,7 +965,6 @@ func isFreshValue(v ssa.Value, depth int) bool {
 	return false
 }
 
-
 // addrTaken: fields whose address escapes (is used other than as the direct
 // operand of a load, store or further field/index selection).
 func (p *Prog) addrTaken() map[*types.Var]bool {
@@ -1003,7 +1000,6 @@ func (p *Prog) addrTaken() map[*types.Var]bool {
 	p.addrTakenFields = m
 	return m
 }
-
 
 // bindingOf returns the variable cell a closure's free variable is bound to.
 func bindingOf(fv *ssa.FreeVar) ssa.Value {
